@@ -10,7 +10,10 @@ import itertools
 import json
 import os
 
-from ..core import scratch_dir, rm, pmap
+from ..core import scratch_dir, rm, pmap, pmap_dynamic
+from . import c09
+
+preimport = c09.preimport  # the concurrent part runs under the controlled scheduler (vf/sched.py)
 
 SUBS = [[], [["r", "u1"]], [["raise"]], [["c", 3, []]], [["c", 3, [["r", "u3"]]], ["r", "u2"]]]
 
@@ -169,13 +172,56 @@ def run(ctx):
     b = case(tasks[len(tasks) // 2])
     ctx.selfcheck("one case gives identical observations twice", a["violations"] == b["violations"] and a["transitions"] == b["transitions"])
     ctx.merge(pmap(case, tasks, chunksize=8))
+    concurrent(ctx)
     ctx.extra["root_plans"] = len(plans)
     ctx.extra["cases"] = len(tasks)
     ctx.sample({"case": list(tasks[len(tasks) // 2])})
     ctx.sample({"case": list(tasks[-1])})
 
 
+def conc_scenarios(tier):
+    """A sub-call can also be obtained a fifth way: found in the store only after the caller's batch pre-check missed it,
+    because another thread was computing it. Two threads whose call trees share a sub-tree."""
+    out = []
+    for be in (("mem", "fs+cache-all") if tier != "thorough" else ("mem", "fs", "fs+cache-all", "fs+cache-one")):
+        out.append(("%s|cold|nested-shared" % be, be, "cold", [[("top1", 1)], [("top2", 1)]]))
+        out.append(("%s|cold|nested-vs-inner" % be, be, "cold", [[("top1", 1)], [("mid", 1)]]))
+        out.append(("%s|cold|nested-vs-leaf" % be, be, "cold", [[("top1", 1)], [("leaf", 1)]]))
+    return out
+
+
+def concurrent(ctx):
+    thorough = ctx.tier == "thorough"
+    tasks = []
+    for scn in conc_scenarios(ctx.tier):
+        tasks.append((scn, (), 1, {"cap": 150, "prov": True}))
+        if thorough:
+            tasks.append((scn, (), 2, {"cap": 150, "prov": True, "gran": "runner"}))
+    t1 = c09.run_once(tasks[0][0], (), prov=True)
+    t2 = c09.run_once(tasks[0][0], (), prov=True)
+    ctx.selfcheck("concurrent part: default schedule replays identically", t1[0] == t2[0] and t1[1] == t2[1])
+    res = pmap_dynamic(c09.explore_subtree, tasks)
+    n = 0
+    for r in res:
+        n += r["evaluations"]
+        r["violations"] = [("concurrent|" + k, w, a) for k, w, a in r["violations"]]
+    ctx.merge(res)
+    ctx.states += n
+    ctx.extra["concurrent"] = {"scenarios": [t[0][0] for t in tasks if "gran" not in t[3]], "schedules_executed": n,
+                               "preemption_bound": "1 at line granularity" + (", 2 at runner granularity" if thorough else "")}
+    ctx.rule += (" Concurrent part: two threads whose call trees share a sub-tree (top1->mid->leaf with top2->mid->leaf, with mid, "
+                 "with leaf), cold store, every schedule up to the preemption bound under the controlled scheduler; after each "
+                 "execution the record of every call in both trees is compared with the static call tree.")
+
+
 def replay(ctx, art):
+    if "scenario" in art["artefact"]:
+        a = art["artefact"]
+        scn = next(s for s in conc_scenarios("thorough") if s[0] == a["scenario"])
+        trace, token, bad, npoints = c09.run_once(scn, tuple(a["choices"]), a.get("opcodes", False), a.get("gran", "full"), True)
+        print("observation:", token)
+        print("REPLAY property=C10 result=%s" % (bad,))
+        return 1 if bad else 0
     c = art["artefact"]["case"]
     r = case((c[0], c[1], c[2], [tuple(p) for p in c[3]], c[4]))
     for v in r["violations"]:
